@@ -54,14 +54,24 @@ def _build_ext(name, srcdir):
             sys.exit(2)
         os.replace(tmp, cached)
         _prune()
+    try:
+        os.utime(os.path.dirname(cached))        # mark as recently used (pruning goes by age)
+    except OSError:
+        pass
     return cached, suffix
 
 
-def _prune(keep=6):
+def _prune(keep=16, min_age=2 * 3600):
+    """drops cached builds beyond the `keep` most recently used ones, but never one used within the last two hours:
+    several checks (e.g. demonstration patches on scratch copies) may run side by side and must not pull the
+    extension of another run from under it."""
+    import time
     try:
         ds = sorted((os.path.join(CACHE, d) for d in os.listdir(CACHE)), key=os.path.getmtime)
+        now = time.time()
         for d in ds[:-keep]:
-            shutil.rmtree(d, ignore_errors=True)
+            if now - os.path.getmtime(d) > min_age:
+                shutil.rmtree(d, ignore_errors=True)
     except OSError:
         pass
 
@@ -84,7 +94,14 @@ def stage():
     with ThreadPoolExecutor(2) as ex:
         res = list(ex.map(lambda n: (n, _build_ext(n, base)), EXTS))
     for name, (cached, suffix) in res:
-        shutil.copy(cached, os.path.join(base, EXTS[name][0], name + suffix))
+        for attempt in range(3):
+            try:
+                shutil.copy(cached, os.path.join(base, EXTS[name][0], name + suffix))
+                break
+            except FileNotFoundError:          # removed by a concurrent run between build and copy: build again
+                if attempt == 2:
+                    raise
+                cached, suffix = _build_ext(name, base)
     work = os.path.join(base, "work")
     os.makedirs(work)
     os.chdir(work)
